@@ -6,6 +6,8 @@
     marshal <desc>     -> hex bytes | "err"
     marshalc <cdesc>   -> hex bytes | "err"              (value graphs with functions, funcdefs, environments; Code.lean)
     unmarshalc <hex>   -> "ok <consumed> <cdesc>" | "err"
+    chanhook <threaded> <closed> <limit> <val>*   -> hex of what janet_chanat_marshal appends (hook protocol, Abstract.lean)
+    chanread <hex>     -> "ok <consumed> <threaded> <closed> <limit> <val>*" | "err"   (janet_chanat_unmarshal on those bytes)
   <cdesc> = <val> { "|" <cobj> } "#" [ <def> { "|" <def> } ] "#" [ <env> { "|" <env> } ]
   <cobj> = <obj> | F <defidx> <envidx>*
   <def>  = D <flags> <slotcount> <arity> <min> <max> <name|_> <source|_> C <k> <val>^k S <k> (<birth> <death> <slot> <val>)^k
@@ -22,6 +24,7 @@ import JanetModel.Marsh.IntCodec
 import JanetModel.Marsh.Size
 import JanetModel.Marsh.Graph
 import JanetModel.Marsh.Code
+import JanetModel.Marsh.Abstract
 import JanetModel.Asm.Operand
 open Driver JanetModel.Marsh
 
@@ -266,6 +269,7 @@ def showInts (ns : List Int) : String := String.join (ns.map fun n => s!" {n}")
 def showCObj : CObj → String
   | .data o => showObj o
   | .func d es => s!"F {d}" ++ showNats es
+  | .abs _ _ _ => "X?"
 
 def showOpt : Option Val → String
   | none => "_"
@@ -339,6 +343,25 @@ def step (_ : Unit) (toks : List String) : Unit × String :=
     | some (x, T) =>
       match marshalCode T x with
       | some bs => ((), hexOfBytes bs)
+      | none => ((), "err")
+    | none => ((), "bad-op")
+  | "chanhook" :: th :: cl :: lim :: vals =>
+    match th.toNat?, cl.toNat?, lim.toInt?, parseVals vals with
+    | some t, some c, some l, some vs =>
+      let p := chanItems t c l vs
+      match marshalHook (fun v c => marshalC (topFuel - 2) ⟨[], [], []⟩ v c) 1 p.1 p.2 ⟨1, 0, 0⟩ with
+      | some (bs, _) => ((), hexOfBytes bs)
+      | none => ((), "err")
+    | _, _, _, _ => ((), "bad-op")
+  | ["chanread", h] =>
+    match bytesOfHex h with
+    | some bs =>
+      match unmarshalHook (fun c d => unmarshalC (topFuel - 2) (fun _ => true) c d) chanProg (CObj.abs .nil) ⟨1, 0, 0⟩ bs with
+      | some (_, rest, o) =>
+        match o.objs with
+        | [.abs _ [.byte t] (.byte c :: .int l :: .int _ :: items)] =>
+          ((), s!"ok {bs.length - rest.length} {t} {c} {l}" ++ String.join (items.map fun it => match it with | .janet v => " " ++ showVal v | _ => " ?"))
+        | _ => ((), "err")
       | none => ((), "err")
     | none => ((), "bad-op")
   | ["unmarshalc", h] =>
